@@ -261,23 +261,29 @@ pub fn plan(c: &Case) -> Plan {
             v
         };
         let ins = slots(INPUTS);
-        if !ins.is_empty() {
-            let (k, i) = ins[pick_index(c.slot, ins.len())];
-            let v = val[k][i] as i128 + adj;
-            if v >= 0 && sum_in + adj <= M {
-                val[k][i] = v as u64;
-                solved = true;
-            }
-        }
         let outs = slots(OUTPUTS);
-        if !solved && !outs.is_empty() {
-            let (k, i) = outs[pick_index(c.slot, outs.len())];
-            let v = val[k][i] as i128 - adj;
-            if v >= 0 && sum_out - adj <= M {
-                val[k][i] = v as u64;
-                solved = true;
+        // raise one value, or lower values (starting at the selected slot) until the offset is met
+        let mut adjust = |slots: &[(usize, usize)], delta: i128, side_sum: i128| -> bool {
+            if slots.is_empty() || side_sum + delta < 0 || side_sum + delta > M {
+                return false;
             }
-        }
+            let start = pick_index(c.slot, slots.len());
+            if delta >= 0 {
+                let (k, i) = slots[start];
+                val[k][i] += delta as u64;
+            } else {
+                let mut rest = (-delta) as u64;
+                for n in 0..slots.len() {
+                    let (k, i) = slots[(start + n) % slots.len()];
+                    let take = rest.min(val[k][i]);
+                    val[k][i] -= take;
+                    rest -= take;
+                }
+                debug_assert_eq!(rest, 0);
+            }
+            true
+        };
+        solved = adjust(&ins, adj, sum_in) || adjust(&outs, -adj, sum_out);
         sum_in = sum(&val, INPUTS);
         sum_out = sum(&val, OUTPUTS);
     }
